@@ -1815,7 +1815,89 @@ fn run_twostores_sharedpool() -> Option<(String, String, String)> {
     }
     None
 }
+// two stores share one subscriber object (with its own internal mutex); a notification of store `control` makes the shared
+// subscriber unsubscribe itself from store `feed` while `feed` is in the middle of a notification round: both stores must
+// keep processing actions (C19: a notification in progress on one store cannot wedge another one)
+fn run_twostores_sharedsub() -> Option<(String, String, String)> {
+    use std::sync::mpsc;
+    struct Inner {
+        feed_subscription: Option<Box<dyn Subscription>>,
+    }
+    struct Bridge {
+        inner: Mutex<Inner>,
+        stop_in_progress: Mutex<mpsc::Sender<()>>,
+        feed_is_notifying: Mutex<mpsc::Receiver<()>>,
+    }
+    impl Subscriber<St, Ac> for Bridge {
+        fn on_notify(&self, _s: &St, a: &Ac) {
+            let mut inner = self.inner.lock().unwrap();
+            if *a == 1000 {
+                let _ = self.stop_in_progress.lock().unwrap().send(());
+                let _ = self.feed_is_notifying.lock().unwrap().recv_timeout(Duration::from_secs(5));
+                if let Some(h) = inner.feed_subscription.take() {
+                    h.unsubscribe();
+                }
+            }
+        }
+    }
+    struct Probe {
+        feed_is_notifying: Mutex<mpsc::Sender<()>>,
+    }
+    impl Subscriber<St, Ac> for Probe {
+        fn on_notify(&self, _s: &St, a: &Ac) {
+            if *a == 7 {
+                let _ = self.feed_is_notifying.lock().unwrap().send(());
+            }
+        }
+    }
+    let mk = || {
+        StoreBuilder::<St, Ac>::new(0)
+            .with_reducer(Box::new(crate::reducer::FnReducer::from(|s: &St, a: &Ac| DispatchOp::Dispatch(s + a, None))))
+            .build()
+            .unwrap()
+    };
+    let feed = mk();
+    let control = mk();
+    let (stop_tx, stop_rx) = mpsc::channel::<()>();
+    let (not_tx, not_rx) = mpsc::channel::<()>();
+    let bridge = Arc::new(Bridge { inner: Mutex::new(Inner { feed_subscription: None }), stop_in_progress: Mutex::new(stop_tx), feed_is_notifying: Mutex::new(not_rx) });
+    let _p = feed.add_subscriber(Arc::new(Probe { feed_is_notifying: Mutex::new(not_tx) }));
+    let fh = feed.add_subscriber(bridge.clone());
+    bridge.inner.lock().unwrap().feed_subscription = Some(fh);
+    let _c = control.add_subscriber(bridge.clone());
+    control.dispatch(1000).unwrap();
+    if stop_rx.recv_timeout(Duration::from_secs(5)).is_err() {
+        feed.stop();
+        control.stop();
+        return None;
+    }
+    feed.dispatch(7).unwrap();
+    control.dispatch(1).unwrap();
+    feed.dispatch(1).unwrap();
+    let wait = |st: &Arc<StoreImpl<St, Ac>>, want: St| -> bool {
+        let t0 = Instant::now();
+        while st.get_state() != want && t0.elapsed() < Duration::from_secs(8) {
+            std::thread::sleep(Duration::from_millis(5));
+        }
+        st.get_state() == want
+    };
+    let control_ok = wait(&control, 1001);
+    let feed_ok = wait(&feed, 8);
+    if !control_ok || !feed_ok {
+        // wedged stores are left behind (stop() would hang); the threads die with the process
+        let got = format!("control state {}, feed state {}", control.get_state(), feed.get_state());
+        std::mem::forget(feed);
+        std::mem::forget(control);
+        return Some(("O-C19-do_notify-frame".into(), "both stores keep processing actions (control reaches 1001, feed reaches 8) although they share a subscriber that unsubscribes from feed inside a notification of control".into(), got));
+    }
+    feed.stop();
+    control.stop();
+    None
+}
 fn suite_twostores() -> Option<String> {
+    if let Some((ob, exp, got)) = run_twostores_sharedsub() {
+        return Some(found("twostores", &ob, "twostores sharedsub".to_string(), exp, got));
+    }
     if let Some((ob, exp, got)) = run_twostores_sharedpool() {
         return Some(found("twostores", &ob, "twostores sharedpool".to_string(), exp, got));
     }
@@ -1827,6 +1909,9 @@ fn suite_twostores() -> Option<String> {
     None
 }
 fn replay_twostores(case: &str) -> Option<String> {
+    if case.contains("sharedsub") {
+        return run_twostores_sharedsub().map(|(ob, exp, got)| found("twostores", &ob, case.to_string(), exp, got));
+    }
     if case.contains("sharedpool") {
         return run_twostores_sharedpool().map(|(ob, exp, got)| found("twostores", &ob, case.to_string(), exp, got));
     }
